@@ -34,6 +34,14 @@ int main_replay(){
     refine(); load(0.25); check("refinement + load");
     refine(); g.mergeRefinement(); check("refinement + mergeRefinement");
     load(-0.75); check("overwriting after the merge");
+    refine();       /* a pending refinement, then the coefficients are set: the loaded points stay, the pending points are dropped */
+    { int n0 = g.getNumLoaded(); std::vector<double> c(g.getHierarchicalCoefficients(), g.getHierarchicalCoefficients() + (size_t) 2 * n0);
+      for (auto &q : c) q += 0.125;
+      g.setHierarchicalCoefficients(c);
+      bool same = g.getNumLoaded() == n0 && g.getNumNeeded() == 0;
+      if (same) { const double *c2 = g.getHierarchicalCoefficients(); for (size_t i = 0; i < c.size(); i++) if (std::abs(c2[i] - c[i]) > 1.E-12) same = false; }
+      if (!same) { std::printf("%s variant %d: setHierarchicalCoefficients with a pending refinement: %d loaded (was %d), %d needed, or the coefficients are not the input\n", fam.c_str(), variant, g.getNumLoaded(), n0, g.getNumNeeded()); bad++; }
+      check("setHierarchicalCoefficients"); }
   }
   __CPROVER_assert(bad == 0, "G1 every loaded point returns its stored value after each step of the load / refine / merge protocol");
   return 0;
@@ -52,12 +60,12 @@ def jobs(tier, seed, prop):
         R = X.Rules()
         t, info = protocol.emit(R, fam)
         has = 0 if fam == "Wavelet" else 1
-        pre = ('#include "tsg_shim.h"\nint tsg_exc;\n#define HAS_DERIVED %d\n#define HAS_COEFF %d\n#define LOAD GF_%s_loadNeededValues\n#define MERGE GF_%s_mergeRefinement\n' % (has, 0 if fam == "Global" else 1, fam, fam)
+        pre = ('#include "tsg_shim.h"\nint tsg_exc;\n#define HAS_DERIVED %d\n#define HAS_COEFF %d\n#define LOAD GF_%s_loadNeededValues\n#define MERGE GF_%s_mergeRefinement\n#define SETCOEF GF_%s_setHierarchicalCoefficients\n' % (has, 0 if fam == "Global" else 1, fam, fam, fam)
                + '#line 1 "/verif/contracts/protocol.c"\n' + cf.text(("text",)) + t)
-        for h in ("h_load", "h_merge"):
+        for h in ("h_load", "h_merge") + (("h_setcoef",) if fam == "Global" else ()):
             out.append(Job("protocol.%s.%s" % (fam, h[2:]), pre + cf.text(("harness",), [h]), h, timeout=120,
                            functions=["%s:%d %s" % (f["file"], f["line"], f["name"]) for f in info["functions"]], info=info, replay=replay(prop, fam),
                            assumed=["ghost model: StorageSet::setValues/addValues, MultiIndexSet move/union, buildTree / prepareSequence / recomputeTensorRefs / recomputeSurpluses / recomputeCoefficients act on identities as stated in contracts/protocol.c (addValues itself is proved in indexsets.addValues)",
                                     "the invariant is assumed at entry (established by the constructors, which are not under contract)"],
-                           label="Grid%s %s path keeps values, points and derived structures aligned (G1)" % (fam, "loadNeededValues" if h == "h_load" else "mergeRefinement")))
+                           label="Grid%s %s path keeps values, points and derived structures aligned (G1)" % (fam, {"h_load": "loadNeededValues", "h_merge": "mergeRefinement", "h_setcoef": "setHierarchicalCoefficients"}[h])))
     return out
